@@ -834,7 +834,9 @@ pub fn finish(agg: &Agg, wall_s: f64, rule: &str, assumptions: Vec<String>) -> i
         "wall_s": wall_s,
         "violations": agg.violations.len(),
     });
-    let dir = format!("{}/evidence", VERIF_DIR);
+    // The sensitivity tools (mutants, seeded changes) patch /repo on purpose; they point this
+    // elsewhere so that the committed evidence only ever comes from the unpatched tree.
+    let dir = std::env::var("AXSIM_EVIDENCE_DIR").unwrap_or_else(|_| format!("{}/evidence", VERIF_DIR));
     let _ = std::fs::create_dir_all(&dir);
     let path = format!("{}/{}.json", dir, agg.property);
     if let Err(e) = std::fs::write(&path, serde_json::to_string_pretty(&ev).unwrap()) {
